@@ -40,6 +40,7 @@
   inline_real_seq_illformed_partial
   seq_more_fuel_same_answers_and_loader
   failed_request_more_fuel_further_loads
+  loaded_set_grows_with_fuel
 -/
 import Genshi.Lemmas.InclErase
 import Genshi.Lemmas.InclSpec
@@ -48,6 +49,7 @@ import Genshi.Lemmas.InclIllSim
 import Genshi.Lemmas.InclSeq
 import Genshi.Lemmas.InclSpecZ
 import Genshi.Lemmas.InclLogPre
+import Genshi.Lemmas.InclGrow
 import Genshi.Gen.Incl
 namespace Genshi.Props.C11
 open Genshi.Incl
@@ -740,6 +742,32 @@ theorem failed_request_more_fuel_further_loads (m : Mode) (files : Files) {f g :
       obtain ⟨t, ht⟩ := logL_pre .inlineU files (render_le .inlineU files hfg) (logR_eq .inlineU files hfg)
         (logR_pre .inlineU files hfg) body (.ofKind q.2.1) st1
       exact ⟨t, by rw [ht, replayLoads_append]⟩
+
+/-- **the set of prepared templates a failed request leaves grows with the fuel** (every file set, every mode):
+the loader loses nothing by a failed request (`Sub c …`: preparations, loads and replayed loads only add to the
+cache, `Lemmas/InclGrow.lean`), and what it holds after the request at fuel `f` it also holds after the request
+at any `g ≥ f`.  The names are among the finitely many files of the set, so the sequence of these sets is
+eventually constant: that constant is what the harness's saturation test (fuel 24 against 72) looks for -/
+theorem loaded_set_grows_with_fuel (m : Mode) (files : Files) {f g : Nat} (hfg : f ≤ g) (c : Cache) (q : Req) :
+    Sub c (cacheAfterFail m files f c q) ∧ Sub (cacheAfterFail m files f c q) (cacheAfterFail m files g c q) := by
+  constructor
+  · cases m with
+    | runtime => exact Sub.refl _
+    | inlineM =>
+      simp only [cacheAfterFail, loadT]
+      cases hx : loadInl files q.1 q.2.1 c with
+      | fuel => exact loadInlC_grows files _ _ c
+      | err e => exact loadInlC_grows files _ _ c
+      | ok r => exact (loadInl_grows files _ _ c r hx).trans (replayLoads_grows files _ _)
+    | inlineU =>
+      simp only [cacheAfterFail, loadT]
+      cases hx : loadInl files q.1 q.2.1 c with
+      | fuel => exact loadInlC_grows files _ _ c
+      | err e => exact loadInlC_grows files _ _ c
+      | ok r => exact (loadInl_grows files _ _ c r hx).trans (replayLoads_grows files _ _)
+  · obtain ⟨t, ht⟩ := failed_request_more_fuel_further_loads m files hfg c q
+    rw [ht]
+    exact replayLoads_grows files t _
 
 /-- **the same conditions of termination, for sequences**: a list of answers none of which is "out of fuel" is
 what the code's inline mode gives for the sequence with some fuel iff it is what run-time mode gives with some
